@@ -1,15 +1,418 @@
 /-
-C04 — after a crash at any instant, restart exposes a consistent prefix of the log.  (theorems: see below;
-this file is extended as the crash model grows)
+C04 — after a crash at any instant, a restart on the surviving files succeeds and exposes a gap-free,
+duplicate-free prefix of the accepted messages that contains every message whose write had completed
+under wait-confirmation; messages accepted after recovery continue at the next offset; torn trailing
+records in a log or index file are ignored.
+
+Crash model (`Iggy/Log/Crash.lean`, tied to the real server by differential testing of crash images):
+the only file mutations of the data path are the two appends of `persist_messages` — the batch to the
+`.log` file and its 16-byte record to the `.index` file (log first under wait-confirmation, index first
+under no-wait confirmation).  `persistImages c d b i` lists what a process death can leave on disk:
+the state after each completed append, and the state with the append in flight torn (a partial record at
+the end of the file).  Files are modelled at batch granularity — a file is the list of its complete
+records plus a flag "a partial record follows"; the codec layer justifies that a reader sees exactly
+the complete records.  At start-up the server reconciles log and index of every segment (`reconcile`)
+and then loads the partition (`Seg.load`, `Part.load`).
+
+Setting of the theorems: a segment `s` satisfying the representation invariant `s.Inv cfg` whose buffer
+is non-empty (`s.accMsgs ≠ []`, i.e. `s.acc = some a` with `a.msgs ≠ []`; the invariant then forces
+`s.closed = false`, see `persisting_open`) is being persisted: `b := persistBatch s` is the batch and
+`i := persistIdx s` the index record `Seg.persist` writes (`persist_writes`), `s.disk` the clean state
+of its files before and `s.diskAfter` the clean state after the operation.  `s.msgs` = stored messages
+followed by the buffered ones = the messages accepted so far; `batchesMsgs s.log` = the stored ones.
+Helper lemmas: `Iggy/Log/Lemmas/Crash.lean`.
+
+Everything asked for is proved as stated, with one correction: `recoverSeg` alone (`Seg.load` of the
+reconciled files) does NOT satisfy `Seg.Inv` when the recovered log fills the segment — `Seg.load` leaves
+`endOff = 0` and `Part.load` repairs it afterwards (storage.rs l.183-197).  `recover_inv` is therefore
+stated for `recoverLast` = `recoverSeg` followed by that fix-up, `recover_inv_open` for bare `recoverSeg`
+when the recovered log does not fill the segment, and `recover_inv_needs_fixup` is the machine-checked
+counterexample for the unconditional statement about bare `recoverSeg`.
 -/
-import Iggy.Log.RefineRun
+import Iggy.Log.Lemmas.Crash
+import Iggy.Log.Refine
 namespace Iggy.Props.C04
 open Iggy.Log
+
+variable {cfg : Cfg} {s : Seg} {now : Nat} {c : Confirm} {x : SegDisk}
 
 /-- A crash between operations (every file mutation of the interrupted operation completed, nothing
 torn) loses at most the unsaved buffer: what `Part.load` finds in the files is exactly the stored
 batches, a prefix of the partition's messages. -/
 theorem stored_is_prefix (p : Part) : ∀ s ∈ p.segs, ∃ buf, s.msgs = batchesMsgs s.log ++ buf :=
   fun s _ => ⟨s.accMsgs, rfl⟩
+
+/-! ## the setting -/
+
+/-- a segment with a non-empty buffer is open -/
+theorem persisting_open (h : s.Inv cfg) (hne : s.accMsgs ≠ []) : s.closed = false := by
+  cases hc : s.closed with
+  | false => rfl
+  | true => exact absurd (h.accMsgs_nil_of_closed hc) hne
+
+/-- `persistBatch s` and `persistIdx s` are what `Seg.persist` appends to the log and to the index file,
+`s.diskAfter` is the clean disk state of the persisted segment, and the batch carries the whole buffer -/
+theorem persist_writes (hne : s.accMsgs ≠ []) :
+    (s.persist cfg).1.log = s.log ++ [persistBatch s] ∧
+    (s.persist cfg).1.idxFile = s.idxFile ++ [persistIdx s] ∧
+    (s.persist cfg).1.disk = s.diskAfter ∧ (persistBatch s).msgs = s.accMsgs :=
+  ⟨(Seg.persist_files hne).1, (Seg.persist_files hne).2, Seg.persist_disk hne, persistBatch_msgs s⟩
+
+/-! ## 1. clean states are left alone -/
+
+/-- the files of a segment satisfying the invariant are consistent: the index file is exactly the index
+of the log, nothing torn, every batch well formed -/
+theorem disk_consistent (h : s.Inv cfg) : s.disk.Consistent := Seg.disk_consistent h
+
+/-- `reconcile` does not change a consistent disk state — in particular the state after a clean
+shutdown, and every segment other than the one being written -/
+theorem reconcile_consistent {d : SegDisk} (h : d.Consistent) : reconcile d = d :=
+  Iggy.Log.reconcile_consistent h
+
+/-- `reconcile` never touches the log file's complete batches -/
+theorem reconcile_keeps_log (d : SegDisk) : (reconcile d).log = d.log := rfl
+
+/-- **what recovery computes, in general.** If the index file holds the records of the first `k` batches
+of the log followed by any number of records that do not point at the start of a complete batch, then
+`reconcile` yields the clean state of the same log (`cleanDisk`: the log with exactly its index, nothing
+torn): the junk records are dropped, the batches beyond `k` are indexed.  This covers any number of
+unindexed batches and stale records, not only the ten images of one interrupted `persist`. -/
+theorem reconcile_canonical {d : SegDisk} {k : Nat} {junk : List Idx} (hk : k ≤ d.log.length)
+    (hidx : d.idx = mkIdx d.start 0 (d.log.take k) ++ junk)
+    (hjunk : ∀ e ∈ junk, idxValid d.log e = false) : reconcile d = cleanDisk d.start d.log :=
+  reconcile_of_prefix hk hidx hjunk
+
+/-- instance: any number of complete batches the index does not know yet (the log ran ahead of the
+index by more than one batch) are indexed -/
+theorem reconcile_log_ahead {d : SegDisk} {k : Nat} (hk : k ≤ d.log.length)
+    (hidx : d.idx = mkIdx d.start 0 (d.log.take k)) : reconcile d = cleanDisk d.start d.log :=
+  reconcile_of_prefix (junk := []) hk (by simpa using hidx) (by simp)
+
+/-- instance: any number of index records that point at or beyond the end of the log (the index ran
+ahead of the log by more than one record, as can happen under no-wait confirmation) are dropped -/
+theorem reconcile_index_ahead {d : SegDisk} {junk : List Idx} (hidx : d.idx = mkIdx d.start 0 d.log ++ junk)
+    (hjunk : ∀ e ∈ junk, logBytes d.log ≤ e.pos) : reconcile d = cleanDisk d.start d.log :=
+  reconcile_of_prefix (k := d.log.length) (Nat.le_refl _) (by simpa using hidx)
+    (fun e he => idxValid_beyond (hjunk e he))
+
+/-! ## 2. every crash image reconciles to a clean state -/
+
+/-- wait-confirmation (log append, then index append).  Images in order: untouched; log append torn; log
+appended, index not yet; index append torn; both complete.  A batch whose log bytes are complete is
+recovered even though its index record is missing or torn (images 3, 4). -/
+theorem reconcile_images_wait (h : s.Inv cfg) (hne : s.accMsgs ≠ []) :
+    (persistImages .wait s.disk (persistBatch s) (persistIdx s)).map reconcile =
+      [s.disk, s.disk, s.diskAfter, s.diskAfter, s.diskAfter] :=
+  Iggy.Log.reconcile_images_wait h hne
+
+/-- no-wait confirmation (index append first, the log append later).  Images in order: untouched; index
+append torn; index appended, log not yet; log append torn; both complete.  An index record whose batch
+never reached the log is dropped (images 3, 4): it points at the end of the log, which is not the start
+of a complete batch. -/
+theorem reconcile_images_noWait (h : s.Inv cfg) (hne : s.accMsgs ≠ []) :
+    (persistImages .noWait s.disk (persistBatch s) (persistIdx s)).map reconcile =
+      [s.disk, s.disk, s.disk, s.disk, s.diskAfter] :=
+  Iggy.Log.reconcile_images_noWait h hne
+
+/-- For every image, in both confirmation modes: the reconciled state is consistent and its log is the
+log before the operation or that log plus the new batch — the latter exactly when the image's log file
+holds the complete batch (`reconcile` keeps the log: `reconcile_keeps_log`). -/
+theorem reconcile_image (h : s.Inv cfg) (hne : s.accMsgs ≠ [])
+    (hx : x ∈ persistImages c s.disk (persistBatch s) (persistIdx s)) :
+    (reconcile x).Consistent ∧
+      ((reconcile x).log = s.log ∨ (reconcile x).log = s.log ++ [persistBatch s]) ∧
+      ((x.log = s.log ∧ reconcile x = s.disk) ∨
+        (x.log = s.log ++ [persistBatch s] ∧ reconcile x = s.diskAfter)) := by
+  have hc := reconcile_image_cases h hne hx
+  refine ⟨?_, ?_, hc⟩
+  · rcases hc with ⟨-, hr⟩ | ⟨-, hr⟩
+    · rw [hr]; exact Seg.disk_consistent h
+    · rw [hr]; exact Seg.diskAfter_consistent h hne
+  · rcases hc with ⟨hl, -⟩ | ⟨hl, -⟩
+    · exact Or.inl hl
+    · exact Or.inr hl
+
+/-! ## 3. the restart succeeds: the recovered segment satisfies the invariant -/
+
+/-- the recovered segment holds exactly the messages of the complete batches of the log file, whatever
+the state of the index file (any disk state, not only crash images) -/
+theorem recover_msgs (cfg : Cfg) (now : Nat) (d : SegDisk) :
+    (recoverSeg cfg now d).msgs = batchesMsgs (reconcile d).log := recoverSeg_msgs d
+
+/-- The segment the restarted server works with (`recoverLast`: `recoverSeg`, then the end-offset
+fix-up `Part.load` applies to a full last segment) satisfies the representation invariant: in particular
+its messages carry the offsets `start, start+1, …` without gap or duplicate (`Seg.Inv.offsets`), its
+index is exactly the index of its log, and `current_offset` is the last recovered offset.
+`hnow`: the clock did not go backwards. -/
+theorem recover_inv (h : s.Inv cfg) (hne : s.accMsgs ≠ []) (hnow : ∀ m ∈ s.msgs, m.ts ≤ now)
+    (hx : x ∈ persistImages c s.disk (persistBatch s) (persistIdx s)) :
+    (recoverLast cfg now x).Inv cfg := image_recoverLast_inv h hne hnow hx
+
+/-- as long as the recovered log does not fill the segment no fix-up is involved -/
+theorem recover_inv_open (h : s.Inv cfg) (hne : s.accMsgs ≠ []) (hnow : ∀ m ∈ s.msgs, m.ts ≤ now)
+    (hx : x ∈ persistImages c s.disk (persistBatch s) (persistIdx s))
+    (hopen : logBytes x.log < cfg.segSize) : (recoverSeg cfg now x).Inv cfg := by
+  rw [← recoverLast_of_open hopen]
+  exact image_recoverLast_inv h hne hnow hx
+
+/-- gap-free and duplicate-free, spelled out -/
+theorem recover_offsets (h : s.Inv cfg) (hne : s.accMsgs ≠ []) (hnow : ∀ m ∈ s.msgs, m.ts ≤ now)
+    (hx : x ∈ persistImages c s.disk (persistBatch s) (persistIdx s)) :
+    consecutiveFrom s.start (recoverSeg cfg now x).msgs := by
+  have := (image_recoverLast_inv (now := now) h hne hnow hx).offsets
+  rwa [recoverLast_start, image_start h hne hx, recoverLast_msgs, ← recoverSeg_msgs (cfg := cfg) (now := now)]
+    at this
+
+/-! ## 4. the recovered messages are a prefix of the accepted ones -/
+
+/-- **C04 for one segment.** After a crash at any point of the persist operation, in either
+confirmation mode, the recovered messages are a prefix of the accepted messages `s.msgs` and contain
+every message that was stored before the operation began. -/
+theorem crash_prefix (h : s.Inv cfg) (hne : s.accMsgs ≠ [])
+    (hx : x ∈ persistImages c s.disk (persistBatch s) (persistIdx s)) :
+    let r := recoverSeg cfg now x
+    (∃ k, r.msgs = s.msgs.take k) ∧ r.msgs <+: s.msgs ∧ batchesMsgs s.log <+: r.msgs := by
+  intro r
+  have hr : r.msgs = batchesMsgs x.log := recoverSeg_msgs x
+  obtain ⟨h1, h2⟩ := image_msgs_prefix h hne hx
+  rw [hr]
+  refine ⟨⟨(batchesMsgs x.log).length, ?_⟩, h1, h2⟩
+  obtain ⟨t, ht⟩ := h1
+  rw [← ht, List.take_left' rfl]
+
+/-- more precisely: nothing of the buffer is recovered, or all of it — exactly when the image's log holds
+the complete new batch -/
+theorem crash_all_or_nothing (h : s.Inv cfg) (hne : s.accMsgs ≠ [])
+    (hx : x ∈ persistImages c s.disk (persistBatch s) (persistIdx s)) :
+    (x.log = s.log ∧ (recoverSeg cfg now x).msgs = batchesMsgs s.log) ∨
+      (x.log = s.log ++ [persistBatch s] ∧ (recoverSeg cfg now x).msgs = s.msgs) := by
+  rw [recoverSeg_msgs]
+  exact image_msgs h hne hx
+
+/-- **durability under wait-confirmation.** The send is acknowledged only after both appends are
+complete, i.e. in the last image; from then on the disk state is `s.diskAfter`, and a restart recovers
+every accepted message.  (Already images 3 and 4 — the log append complete — recover all of them.) -/
+theorem durable_after_ack (hne : s.accMsgs ≠ []) :
+    (persistImages .wait s.disk (persistBatch s) (persistIdx s)).getLast? = some s.diskAfter ∧
+    (s.persist cfg).1.disk = s.diskAfter ∧
+    (recoverSeg cfg now s.diskAfter).msgs = s.msgs ∧
+    ∀ x ∈ (persistImages .wait s.disk (persistBatch s) (persistIdx s)).drop 2,
+      (recoverSeg cfg now x).msgs = s.msgs := by
+  refine ⟨rfl, Seg.persist_disk hne, ?_, ?_⟩
+  · rw [recoverSeg_msgs]; exact batchesMsgs_after s
+  · intro x hx
+    simp only [persistImages, List.drop_succ_cons, List.drop_zero, List.mem_cons, List.not_mem_nil,
+      or_false] at hx
+    rw [recoverSeg_msgs]
+    rcases hx with rfl | rfl | rfl <;> exact batchesMsgs_after s
+
+/-- **no offset is reused for a recovered message.** `current_offset` of the recovered segment is the
+offset of the last recovered message, and that message is followed by offset
+`start + number of recovered messages`. -/
+theorem no_offset_reuse (h : s.Inv cfg) (hne : s.accMsgs ≠ []) (hnow : ∀ m ∈ s.msgs, m.ts ≤ now)
+    (hx : x ∈ persistImages c s.disk (persistBatch s) (persistIdx s)) :
+    let r := recoverLast cfg now x
+    r.cur = r.start + (r.msgs.length - 1) ∧
+      ∀ m, r.msgs.getLast? = some m → m.off = r.cur ∧ m.off + 1 = r.start + r.msgs.length := by
+  intro r
+  have hi : r.Inv cfg := image_recoverLast_inv h hne hnow hx
+  exact ⟨hi.cur, fun m hm => hi.last_off hm⟩
+
+/-- **messages accepted after recovery continue at the next offset.** Appending messages numbered from
+`start + number of recovered messages` (one past the last recovered offset) to the recovered segment
+keeps the invariant, so recovered and new messages together are again gap-free and duplicate-free. -/
+theorem append_after_recovery (h : s.Inv cfg) (hne : s.accMsgs ≠ []) (hnow : ∀ m ∈ s.msgs, m.ts ≤ now)
+    (hx : x ∈ persistImages c s.disk (persistBatch s) (persistIdx s))
+    (hopen : (recoverLast cfg now x).closed = false) {new : List Msg} {now' : Nat} (hnew : new ≠ [])
+    (hnum : consecutiveFrom (s.start + (recoverLast cfg now x).msgs.length) new) (hle : now ≤ now')
+    (hts : ∀ m ∈ new, m.ts = now') :
+    let r' := (recoverLast cfg now x).appendBatch (sumSizes new) new
+    r'.Inv cfg ∧ r'.msgs = (recoverLast cfg now x).msgs ++ new ∧ consecutiveFrom s.start r'.msgs := by
+  intro r'
+  have hi : (recoverLast cfg now x).Inv cfg := image_recoverLast_inv h hne hnow hx
+  have hst : (recoverLast cfg now x).start = s.start := by
+    rw [recoverLast_start]; exact image_start h hne hx
+  have hold : ∀ m ∈ (recoverLast cfg now x).msgs, m.ts ≤ now' := by
+    intro m hm
+    have := hi.endTs m hm
+    have e : (recoverLast cfg now x).endTs = now := rfl
+    omega
+  have hr' : r'.Inv cfg := Seg.appendBatch_inv (now := now') hi hopen hnew (by rw [hst]; exact hnum) hold hts
+  refine ⟨hr', Seg.appendBatch_msgs hnew, ?_⟩
+  have := hr'.offsets
+  rwa [Seg.appendBatch_start, hst] at this
+
+/-! ## 5. torn tails are ignored -/
+
+/-- A partially written trailing batch in the log file plays no role in recovery: it is cut, never served
+as data.  (By definition of the batch-granularity model: `reconcile` reads the complete records only.) -/
+theorem torn_ignored_log (d : SegDisk) :
+    reconcile { d with logTorn := true } = reconcile { d with logTorn := false } := rfl
+
+/-- the same for a partially written trailing record of the index file -/
+theorem torn_ignored_idx (d : SegDisk) :
+    reconcile { d with idxTorn := true } = reconcile { d with idxTorn := false } := rfl
+
+/-- nothing torn is left after recovery -/
+theorem recovered_not_torn (d : SegDisk) : (reconcile d).logTorn = false ∧ (reconcile d).idxTorn = false :=
+  ⟨rfl, rfl⟩
+
+/-! ## 6. the partition -/
+
+/-- **C04 for a partition.** `p` satisfies the partition invariant and the buffer of its last segment `s`
+is being persisted (every other segment is closed and clean).  The process dies leaving the last segment's
+files in state `x`; the restart (`Part.recover`: reconcile every segment, then `Part.load`) yields a
+partition that satisfies the full invariant `Part.Inv` — so the restart succeeds, offsets are gap-free and
+duplicate-free across segments, `current_offset`, the counters and the index agree with the data — whose
+messages are a prefix of the accepted messages `p.msgs`, contain every message stored before the
+operation, and whose next offset is one past the last recovered message.
+
+`co`, `go`: the consumer offsets found on disk.  The invariant bounds stored consumer offsets by the next
+offset, hence the hypotheses `hco`, `hgo`: an offset stored for a message that was only buffered and is
+lost by the crash would point past the recovered log (not the subject of C04). -/
+theorem part_crash_prefix {p : Part} {init : List Seg} {co go : List (Nat × Nat)}
+    (hp : p.Inv cfg) (hs : p.segs = init ++ [s]) (hne : s.accMsgs ≠ [])
+    (hx : x ∈ persistImages c s.disk (persistBatch s) (persistIdx s))
+    (hnow : ∀ m ∈ p.msgs, m.ts ≤ now)
+    (hco : ∀ e ∈ co, e.2 < s.start + (batchesMsgs x.log).length ∨
+      (e.2 = 0 ∧ s.start + (batchesMsgs x.log).length = 0))
+    (hgo : ∀ e ∈ go, e.2 < s.start + (batchesMsgs x.log).length ∨
+      (e.2 = 0 ∧ s.start + (batchesMsgs x.log).length = 0)) (cl : Nat) :
+    let q := p.recover cfg now x co go cl
+    q.Inv cfg ∧ q.msgs <+: p.msgs ∧ (∃ k, q.msgs = p.msgs.take k) ∧
+      segsMsgs init ++ batchesMsgs s.log <+: q.msgs ∧
+      q.next = s.start + (batchesMsgs x.log).length ∧ q.next ≤ p.next := by
+  intro q
+  obtain ⟨hinv, hmsgs, hnext⟩ := Part.recover_spec (now := now) hp hs hne hx hnow hco hgo cl
+  have hsi : s.Inv cfg := hp.segs s (by simp [hs])
+  obtain ⟨h1, h2⟩ := image_msgs_prefix hsi hne hx
+  have hpm : p.msgs = segsMsgs init ++ s.msgs := by rw [Part.msgs_eq, hs]; simp
+  have hpre : q.msgs <+: p.msgs := by
+    rw [hmsgs, hpm]; exact (List.prefix_append_right_inj _).2 h1
+  refine ⟨hinv, hpre, ?_, ?_, hnext, ?_⟩
+  · obtain ⟨t, ht⟩ := hpre
+    exact ⟨q.msgs.length, by rw [← ht, List.take_left' rfl]⟩
+  · rw [hmsgs]; exact (List.prefix_append_right_inj _).2 h2
+  · rw [hnext, ← (hp.last_facts hs).2.1]
+    have := h1.length_le
+    omega
+
+/-- **a crash while no file mutation is in flight** (between operations, or during an append that only
+fills the buffer; the last segment may be open with any buffer, or closed): the files are clean, the
+restart yields a partition satisfying the invariant that holds exactly the stored messages — all
+messages except the unsaved buffer of the last segment. -/
+theorem part_crash_idle {p : Part} {init : List Seg} {co go : List (Nat × Nat)}
+    (hp : p.Inv cfg) (hs : p.segs = init ++ [s]) (hnow : ∀ m ∈ p.msgs, m.ts ≤ now)
+    (hco : ∀ e ∈ co, e.2 < s.start + (batchesMsgs s.log).length ∨
+      (e.2 = 0 ∧ s.start + (batchesMsgs s.log).length = 0))
+    (hgo : ∀ e ∈ go, e.2 < s.start + (batchesMsgs s.log).length ∨
+      (e.2 = 0 ∧ s.start + (batchesMsgs s.log).length = 0)) (cl : Nat) :
+    let q := p.recover cfg now s.disk co go cl
+    q.Inv cfg ∧ q.msgs = segsMsgs init ++ batchesMsgs s.log ∧ q.msgs ++ s.accMsgs = p.msgs ∧
+      q.next = s.start + (batchesMsgs s.log).length := by
+  intro q
+  obtain ⟨hinv, hmsgs, hnext⟩ := Part.recover_spec_idle (now := now) hp hs hnow hco hgo cl
+  refine ⟨hinv, hmsgs, ?_, hnext⟩
+  rw [hmsgs, Part.msgs_eq, hs]
+  simp [Seg.msgs_def]
+
+/-- **durability under wait-confirmation, for the partition**: once both appends are complete — the only
+point at which the send is acknowledged — a crash loses nothing. -/
+theorem part_durable_after_ack {p : Part} {init : List Seg} {co go : List (Nat × Nat)}
+    (hp : p.Inv cfg) (hs : p.segs = init ++ [s]) (hne : s.accMsgs ≠ [])
+    (hnow : ∀ m ∈ p.msgs, m.ts ≤ now)
+    (hco : ∀ e ∈ co, e.2 < p.next ∨ (e.2 = 0 ∧ p.next = 0))
+    (hgo : ∀ e ∈ go, e.2 < p.next ∨ (e.2 = 0 ∧ p.next = 0)) (cl : Nat) :
+    let q := p.recover cfg now s.diskAfter co go cl
+    q.Inv cfg ∧ q.msgs = p.msgs ∧ q.next = p.next := by
+  intro q
+  have hx := diskAfter_mem s .wait
+  have hm : batchesMsgs s.diskAfter.log = s.msgs := batchesMsgs_after s
+  have hn : s.start + (batchesMsgs s.diskAfter.log).length = p.next := by
+    rw [hm]; exact (hp.last_facts hs).2.1
+  obtain ⟨hinv, hmsgs, hnext⟩ := Part.recover_spec (now := now) (co := co) (go := go) hp hs hne hx hnow
+    (by rw [hn]; exact hco) (by rw [hn]; exact hgo) cl
+  refine ⟨hinv, ?_, by rw [hnext, hn]⟩
+  rw [hmsgs, hm, Part.msgs_eq, hs]; simp
+
+/-! ## 7. non-vacuity and the counterexample -/
+
+def exCfg : Cfg := { reqToSave := 2, segSize := 1000, cacheOn := false, idxCacheOn := true, dedupOn := false }
+def exMsg (o : Nat) : Msg := { off := o, id := o, ts := o, size := 10, tag := o }
+
+/-- offsets 0, 1 stored in one batch, offsets 2, 3 buffered and about to be persisted -/
+def exSeg : Seg :=
+  ((((Seg.create exCfg 0 0).appendBatch 20 [exMsg 0, exMsg 1]).persist exCfg).1).appendBatch 20 [exMsg 2, exMsg 3]
+
+example : exSeg.Inv exCfg ∧ exSeg.accMsgs ≠ [] ∧ exSeg.closed = false := by decide
+example : (batchesMsgs exSeg.log).map (·.off) = [0, 1] ∧ exSeg.msgs.map (·.off) = [0, 1, 2, 3] := by decide
+example : (persistBatch exSeg).msgs.map (·.off) = [2, 3] ∧ (persistIdx exSeg) = { rel := 3, pos := 44, ts := 3 } := by
+  decide
+
+/-- the ten images are pairwise different states of the files -/
+example : (persistImages .wait exSeg.disk (persistBatch exSeg) (persistIdx exSeg)).Nodup ∧
+    (persistImages .noWait exSeg.disk (persistBatch exSeg) (persistIdx exSeg)).Nodup := by decide
+
+/-- wait-confirmation: recovered offsets for the five images -/
+example : (persistImages .wait exSeg.disk (persistBatch exSeg) (persistIdx exSeg)).map
+      (fun x => (recoverSeg exCfg 9 x).msgs.map (·.off)) =
+    [[0, 1], [0, 1], [0, 1, 2, 3], [0, 1, 2, 3], [0, 1, 2, 3]] := by decide
+
+/-- no-wait confirmation: recovered offsets for the five images -/
+example : (persistImages .noWait exSeg.disk (persistBatch exSeg) (persistIdx exSeg)).map
+      (fun x => (recoverSeg exCfg 9 x).msgs.map (·.off)) =
+    [[0, 1], [0, 1], [0, 1], [0, 1], [0, 1, 2, 3]] := by decide
+
+/-- `current_offset` and the index file after recovery: the stale record of no-wait image 3 is gone, the
+missing record of wait image 3 is back -/
+example : (persistImages .wait exSeg.disk (persistBatch exSeg) (persistIdx exSeg)).map
+      (fun x => ((recoverSeg exCfg 9 x).cur, (recoverSeg exCfg 9 x).idxFile.map (fun e => (e.rel, e.pos)))) =
+    [(1, [(1, 0)]), (1, [(1, 0)]), (3, [(1, 0), (3, 44)]), (3, [(1, 0), (3, 44)]), (3, [(1, 0), (3, 44)])] := by
+  decide
+example : (persistImages .noWait exSeg.disk (persistBatch exSeg) (persistIdx exSeg)).map
+      (fun x => ((recoverSeg exCfg 9 x).cur, (recoverSeg exCfg 9 x).idxFile.map (fun e => (e.rel, e.pos)))) =
+    [(1, [(1, 0)]), (1, [(1, 0)]), (1, [(1, 0)]), (1, [(1, 0)]), (3, [(1, 0), (3, 44)])] := by
+  decide
+
+/-- every recovered segment satisfies the invariant (here no segment fills up) -/
+example : ∀ c ∈ [Confirm.wait, Confirm.noWait],
+    ∀ x ∈ persistImages c exSeg.disk (persistBatch exSeg) (persistIdx exSeg), (recoverSeg exCfg 9 x).Inv exCfg := by
+  decide
+
+/-- a segment size the persisted batch reaches: 44 + 44 = 88 ≥ 80 -/
+def exCfgSmall : Cfg := { exCfg with segSize := 80 }
+
+/-- **counterexample** to "`recoverSeg` alone satisfies the invariant": when the recovered log fills the
+segment, `Seg.load` marks it closed with `endOff = 0`; the invariant (`endOff = cur` for a closed
+segment) holds only after the fix-up of `Part.load`, i.e. for `recoverLast`. -/
+theorem recover_inv_needs_fixup :
+    exSeg.Inv exCfgSmall ∧ exSeg.accMsgs ≠ [] ∧
+    exSeg.diskAfter ∈ persistImages .wait exSeg.disk (persistBatch exSeg) (persistIdx exSeg) ∧
+    ¬ (recoverSeg exCfgSmall 9 exSeg.diskAfter).Inv exCfgSmall ∧
+    (recoverLast exCfgSmall 9 exSeg.diskAfter).Inv exCfgSmall := by decide
+
+/-- a partition of two segments (`rx4` of `Iggy/Log/Refine.lean`): offsets 0–4 in a closed first segment,
+offset 5 buffered in the second one, whose log is still empty -/
+def exLast : Seg := (rx4.segs.getLast?).getD (Seg.create rxCfg 0 0)
+
+example : rx4.Inv rxCfg ∧ rx4.segs = rx4.segs.dropLast ++ [exLast] ∧ exLast.accMsgs ≠ [] ∧
+    rx4.msgs.map (·.off) = [0, 1, 2, 3, 4, 5] ∧ rx4.next = 6 := by decide
+
+/-- recovered partition, wait-confirmation: message offsets and next offset for the five images -/
+example : (persistImages .wait exLast.disk (persistBatch exLast) (persistIdx exLast)).map
+      (fun x => ((rx4.recover rxCfg 9 x [] [] 0).msgs.map (·.off), (rx4.recover rxCfg 9 x [] [] 0).next)) =
+    [([0, 1, 2, 3, 4], 5), ([0, 1, 2, 3, 4], 5), ([0, 1, 2, 3, 4, 5], 6), ([0, 1, 2, 3, 4, 5], 6),
+      ([0, 1, 2, 3, 4, 5], 6)] := by decide
+
+/-- recovered partition, no-wait confirmation -/
+example : (persistImages .noWait exLast.disk (persistBatch exLast) (persistIdx exLast)).map
+      (fun x => ((rx4.recover rxCfg 9 x [] [] 0).msgs.map (·.off), (rx4.recover rxCfg 9 x [] [] 0).next)) =
+    [([0, 1, 2, 3, 4], 5), ([0, 1, 2, 3, 4], 5), ([0, 1, 2, 3, 4], 5), ([0, 1, 2, 3, 4], 5),
+      ([0, 1, 2, 3, 4, 5], 6)] := by decide
+
+/-- every recovered partition satisfies the partition invariant -/
+example : ∀ c ∈ [Confirm.wait, Confirm.noWait],
+    ∀ x ∈ persistImages c exLast.disk (persistBatch exLast) (persistIdx exLast),
+      (rx4.recover rxCfg 9 x [] [] 0).Inv rxCfg := by decide
 
 end Iggy.Props.C04
